@@ -14,15 +14,35 @@ struct Sc {
     gap: i32,
     ext: i32,
     clips: [i32; 4],
+    /// optional asymmetric substitution table over the first three letters (score(reference symbol, query symbol))
+    tbl: Option<[i32; 9]>,
+}
+
+fn tbl_score(t: &[i32; 9], a: u8, b: u8) -> i32 {
+    let ix = |c: u8| match c {
+        b'A' => 0,
+        b'C' => 1,
+        _ => 2,
+    };
+    t[ix(a) * 3 + ix(b)]
 }
 
 impl Sc {
     fn scoring(&self) -> Scoring<impl Fn(u8, u8) -> i32 + Clone> {
-        let (ms, mm) = (self.ms, self.mm);
+        let (ms, mm, tbl) = (self.ms, self.mm, self.tbl);
         Scoring {
             gap_open: self.gap,
             gap_extend: self.ext,
-            match_fn: move |a: u8, b: u8| if a == b { ms } else { mm },
+            match_fn: move |a: u8, b: u8| match &tbl {
+                Some(t) => tbl_score(t, a, b),
+                None => {
+                    if a == b {
+                        ms
+                    } else {
+                        mm
+                    }
+                }
+            },
             match_scores: None,
             xclip_prefix: self.clips[0],
             xclip_suffix: self.clips[1],
@@ -31,6 +51,9 @@ impl Sc {
         }
     }
     fn mf(&self, a: u8, b: u8) -> i32 {
+        if let Some(t) = &self.tbl {
+            return tbl_score(t, a, b);
+        }
         if a == b {
             self.ms
         } else {
@@ -167,21 +190,23 @@ impl C16 {
     fn linear_exactness(&self, ctx: &mut Ctx, r: &[u8], q: &[u8], sc: &Sc) {
         // the property quantifies over match function and per-base gap penalty only: clip penalties stay at
         // their default (MIN_SCORE); global_banded does not override them as global() does
-        let sc = &Sc { clips: [MIN_SCORE; 4], ..*sc };
+        let sc = &Sc { clips: [MIN_SCORE; 4], tbl: sc.tbl, ..*sc };
         let desc = |w: String| Obj::new().b("reference", r).b("query", q).d("scoring", sc).s("what", &w).done();
         let exp = nw(r, q, sc);
         let res = guard(|| {
             let mut a = Aligner::new(sc.scoring(), r);
             let al = a.global(q).alignment();
-            let w = r.len().max(q.len()) + 1;
-            let b1 = a.global_banded(q, w).alignment().score;
-            let b2 = a.global_banded(q, w + 7).alignment().score;
-            (al.score, al.verif_operations().to_vec(), b1, b2)
+            // "a bandwidth at least as large as both lengths": exactly max(len), one more, several more
+            let w = r.len().max(q.len());
+            let b0 = a.global_banded(q, w).alignment().score;
+            let b1 = a.global_banded(q, w + 1).alignment().score;
+            let b2 = a.global_banded(q, w + 8).alignment().score;
+            (al.score, al.verif_operations().to_vec(), b0, b1, b2)
         });
         ctx.eval(3);
         match res {
             Err(p) => ctx.violation(&format!("poa:linear:panic:{}", panic_site(&p)), desc(p)),
-            Ok((score, ops, b1, b2)) => {
+            Ok((score, ops, b0, b1, b2)) => {
                 if score != exp {
                     ctx.violation("poa:linear:global-score-differs-from-needleman-wunsch", desc(format!("score {} expected {}", score, exp)));
                 }
@@ -193,8 +218,11 @@ impl C16 {
                         }
                     }
                 }
-                if b1 != exp || b2 != exp {
-                    ctx.violation("poa:linear:wide-band-score-differs", desc(format!("global_banded scores {} / {} expected {}", b1, b2, exp)));
+                if b0 != exp || b1 != exp || b2 != exp {
+                    ctx.violation(
+                        "poa:linear:wide-band-score-differs",
+                        desc(format!("global_banded scores {} / {} / {} for bandwidth max(len), +1, +8; expected {}", b0, b1, b2, exp)),
+                    );
                 }
                 let kinds: u8 = ops.iter().fold(0, |a, o| a | match o { Op::Match(_) => 1, Op::Del(_) => 2, Op::Ins(_) => 4, _ => 8 });
                 ctx.shape(r.len() + q.len() >= 3, &("C16", "linear", size_class(r.len()), size_class(q.len()), kinds, sc.gap == 0, sc.mm == 0));
@@ -340,7 +368,7 @@ fn gen_sc(rng: &mut Rng) -> Sc {
         1 => 0,
         _ => -(rng.below(6) as i32),
     };
-    Sc { ms, mm, gap: -(rng.below(6) as i32), ext: -(rng.below(3) as i32), clips: [clip(rng), clip(rng), clip(rng), clip(rng)] }
+    Sc { ms, mm, gap: -(rng.below(6) as i32), ext: -(rng.below(3) as i32), clips: [clip(rng), clip(rng), clip(rng), clip(rng)], tbl: None }
 }
 
 impl Monitor for C16 {
@@ -361,8 +389,8 @@ impl Monitor for C16 {
     fn rule(&self) -> &'static str {
         "linear case = reference of length 1..=30 (quick) / 60 (thorough) over 2-3 symbols and a query (equal, one edit, several edits, unrelated, length 1, much longer or shorter), \
          scoring with match/mismatch constants (incl. mismatch 0 and all-zero) and per-base gap in {0..-5} (gap_extend set to other values must be ignored): global score == independent \
-         Needleman-Wunsch, operations (hook H2) walked on the linear graph consume all nodes and the query and re-score to the reported score, global_banded with w >= max(len)+1 gives the \
-         same score. growth case = history of 1-8 (quick) / up to 20 (thorough) additions through global / global_banded(w in 1..12) / semiglobal / local / custom (random clip penalties): \
+         Needleman-Wunsch, operations (hook H2) walked on the linear graph consume all nodes and the query and re-score to the reported score, global_banded with w = max(len), max(len)+1, max(len)+8 gives the \
+         same score; a third of the linear cases use an asymmetric 3x3 substitution table. growth case = history of 1-8 (quick) / up to 20 (thorough) additions through global / global_banded(w in 1..12) / semiglobal / local / custom (random clip penalties): \
          after each add_to_graph the graph is acyclic, old labels unchanged, old edges present with weight >= before, node count grew by <= |query|, consensus non-empty and spelled by a \
          path; adding the reference itself r times keeps nodes == consensus == reference (only for scorings where the all-match alignment is the unique optimum). \
          shape = (|ref| class, |q| class, op kinds / mode, branching class, history position)"
@@ -370,7 +398,7 @@ impl Monitor for C16 {
     fn run_case(&mut self, ctx: &mut Ctx, g: u64, rng: &mut Rng) {
         let alpha: Vec<u8> = if rng.chance(1, 2) { b"AC".to_vec() } else { b"ACG".to_vec() };
         if g < N_DIRECTED {
-            let sc = Sc { ms: 1, mm: -1, gap: -1, ext: 0, clips: [MIN_SCORE; 4] };
+            let sc = Sc { ms: 1, mm: -1, gap: -1, ext: 0, clips: [MIN_SCORE; 4], tbl: None };
             match g {
                 0 => {
                     // finding F7 (fixed): one-node graph
@@ -382,13 +410,13 @@ impl Monitor for C16 {
                 2 => self.linear_exactness(ctx, b"GATTACA", b"GCATGCU", &sc),
                 3 => self.growth_history(ctx, rng, b"ACGTACGTACGT", &sc, b"ACGT", 5, true),
                 4 => {
-                    let sc0 = Sc { ms: 0, mm: 0, gap: 0, ext: 0, clips: [0; 4] };
+                    let sc0 = Sc { ms: 0, mm: 0, gap: 0, ext: 0, clips: [0; 4], tbl: None };
                     self.linear_exactness(ctx, b"ACCA", b"CAAC", &sc0);
                     self.growth_history(ctx, rng, b"ACCA", &sc0, &alpha, 4, false);
                 }
                 5 => {
                     // gap_extend must be ignored by POA
-                    let sce = Sc { ms: 2, mm: -1, gap: -2, ext: -5, clips: [MIN_SCORE; 4] };
+                    let sce = Sc { ms: 2, mm: -1, gap: -2, ext: -5, clips: [MIN_SCORE; 4], tbl: None };
                     self.linear_exactness(ctx, b"ACACACAC", b"ACAC", &sce);
                     self.linear_exactness(ctx, b"ACAC", b"ACACACAC", &sce);
                 }
@@ -407,9 +435,18 @@ impl Monitor for C16 {
             _ => rng.range(1, maxr),
         };
         let r = rng.bytes_over(&alpha, rl);
-        let sc = gen_sc(rng);
+        let mut sc = gen_sc(rng);
         match rng.below(10) {
             0..=4 => {
+                if rng.chance(1, 3) {
+                    // asymmetric substitution scores: score(ref symbol, query symbol) != score(query symbol, ref symbol)
+                    let mut t = [0i32; 9];
+                    for v in t.iter_mut() {
+                        *v = rng.irange(-4, 3) as i32;
+                    }
+                    sc.tbl = Some(t);
+                    ctx.count("linear_alignments_with_asymmetric_scores", 1);
+                }
                 let q = match rng.below(6) {
                     0 => r.clone(),
                     1 => super::alnspec::related(rng, &r, &alpha, 1),
